@@ -349,29 +349,29 @@ Fixpoint gen_tree (fuel : nat) (depth : nat) (context : list chain) (prev : list
 
 (* preorder numbering: this node gets [id], its subtrees the ids after it; a temporary edge gets the
    next temporary tag before its subtree is numbered *)
-Fixpoint flatten (t : ptree) (parent : option N) (id : N) (tti : N) {struct t} : list gnode * N :=
+Fixpoint flatten (t : ptree) (parent : option N) (id : nat) (tti : N) {struct t} : list gnode * N :=
   match t with
   | PNode rules sign vs ps =>
-      let '(ves, sub1, nid1, tti1) := flatten_vs vs id (id + 1) tti in
+      let '(ves, sub1, nid1, tti1) := flatten_vs vs id (S id) tti in
       let '(pes, sub2, nid2, tti2) := flatten_ps ps id nid1 tti1 in
       ({| g_parent := parent; g_rule := rules; g_vedges := ves; g_pedges := pes; g_sign := sign |} :: sub1 ++ sub2, tti2)
   end
-with flatten_vs (l : vlist) (src : N) (nid : N) (tti : N) {struct l} : list vedge * list gnode * N * N :=
+with flatten_vs (l : vlist) (src : nat) (nid : nat) (tti : N) {struct l} : list vedge * list gnode * nat * N :=
   match l with
   | VNil => ([], [], nid, tti)
   | VCons v c r =>
-      let '(sub, tti') := flatten c (Some src) nid tti in
-      let '(es, subs, nid', tti'') := flatten_vs r src (nid + N.of_nat (length sub)) tti' in
-      ({| ve_dest := Some nid; ve_value := Some v |} :: es, sub ++ subs, nid', tti'')
+      let '(sub, tti') := flatten c (Some (N.of_nat src)) nid tti in
+      let '(es, subs, nid', tti'') := flatten_vs r src (nid + length sub) tti' in
+      ({| ve_dest := Some (N.of_nat nid); ve_value := Some v |} :: es, sub ++ subs, nid', tti'')
   end
-with flatten_ps (l : plist) (src : N) (nid : N) (tti : N) {struct l} : list pedge * list gnode * N * N :=
+with flatten_ps (l : plist) (src : nat) (nid : nat) (tti : N) {struct l} : list pedge * list gnode * nat * N :=
   match l with
   | PNil => ([], [], nid, tti)
   | PCons tag cs c r =>
       let '(etag, tti0) := if (0 <=? tag)%Z then (Z.to_N tag, tti) else (tti + 1, tti + 1) in
-      let '(sub, tti') := flatten c (Some src) nid tti0 in
-      let '(es, subs, nid', tti'') := flatten_ps r src (nid + N.of_nat (length sub)) tti' in
-      ({| pe_dest := Some nid; pe_tag := Some etag; pe_cons := cs |} :: es, sub ++ subs, nid', tti'')
+      let '(sub, tti') := flatten c (Some (N.of_nat src)) nid tti0 in
+      let '(es, subs, nid', tti'') := flatten_ps r src (nid + length sub) tti' in
+      ({| pe_dest := Some (N.of_nat nid); pe_tag := Some etag; pe_cons := cs |} :: es, sub ++ subs, nid', tti'')
   end.
 
 (* rule_node_ids: for every node in id order, for every rule name ending there *)
@@ -422,7 +422,7 @@ Definition compile (rules0 : lvsfile) : res lvsmodel :=
   do cs <- chains_of rules0 ;;
   let '(chains, st) := cs in
   do t <- gen_tree (S (max_chain_len chains)) 0 chains [] ;;
-  let pool := fst (flatten t None 0 (N.of_nat (length (ns_named st)))) in
+  let pool := fst (flatten t None O (N.of_nat (length (ns_named st)))) in
   model_of st pool (rids_of pool) 0.
 
 (* the node-pool formulation of _generate_node (same output; cross-checked by the harness) *)
